@@ -252,25 +252,6 @@ func mapEdits(fset *token.FileSet, f *ast.File, src []byte, info *types.Info, tp
 		if fset.Position(rs.Body.Lbrace).Line != pos.Line {
 			return skip("header spans lines")
 		}
-		// per-iteration value variable: do not touch loops whose body takes the address of the value
-		// variable or contains a function literal (closure capture)
-		capture := false
-		ast.Inspect(rs.Body, func(m ast.Node) bool {
-			switch x := m.(type) {
-			case *ast.FuncLit:
-				capture = true
-			case *ast.UnaryExpr:
-				if x.Op == token.AND {
-					capture = true
-				}
-			case *ast.GoStmt, *ast.DeferStmt:
-				capture = true
-			}
-			return true
-		})
-		if capture {
-			return skip("body takes an address, defers or has a closure")
-		}
 		unnameable := ""
 		qual := func(p *types.Package) string {
 			if p == tpkg {
@@ -295,6 +276,42 @@ func mapEdits(fset *token.FileSet, f *ast.File, src []byte, info *types.Info, tp
 		if named, ok := mt.Key().(*types.Named); ok && named.Obj().Pkg() == tpkg && named.Obj().Parent() != tpkg.Scope() {
 			return skip("key type declared inside a function")
 		}
+		// the value variable: declared once before the loop, exactly like the original's per-loop variable
+		// (the module's language version is below go1.22), when its type can be named in this file;
+		// otherwise declared per iteration, and then only if the body cannot tell the difference (no address
+		// taken, no closure, no defer/go)
+		valDecl := ""
+		if !valIsBlank {
+			unnameable = ""
+			valType := types.TypeString(mt.Elem(), qual)
+			localType := false
+			if named, ok := mt.Elem().(*types.Named); ok && named.Obj().Pkg() == tpkg && named.Obj().Parent() != tpkg.Scope() {
+				localType = true
+			}
+			if unnameable == "" && !localType {
+				valDecl = valType
+			} else {
+				capture := false
+				ast.Inspect(rs.Body, func(m ast.Node) bool {
+					switch x := m.(type) {
+					case *ast.FuncLit, *ast.GoStmt, *ast.DeferStmt:
+						capture = true
+					case *ast.UnaryExpr:
+						if x.Op == token.AND {
+							capture = true
+						}
+					case *ast.CallExpr:
+						if _, ok := x.Fun.(*ast.SelectorExpr); ok {
+							capture = true // a method with a pointer receiver takes the address implicitly
+						}
+					}
+					return true
+				})
+				if capture {
+					return skip("value type " + valType + " not nameable in this file and the body may capture the value variable")
+				}
+			}
+		}
 		count++
 		id := fmt.Sprintf("%d_%d", pos.Line, count)
 		mv, kv, ok1 := "verifm_"+id, "verifk_"+id, "verifok_"+id
@@ -305,8 +322,14 @@ func mapEdits(fset *token.FileSet, f *ast.File, src []byte, info *types.Info, tp
 		xText := string(src[off(rs.X.Pos()):off(rs.X.End())])
 		var b strings.Builder
 		fmt.Fprintf(&b, "{ %s := %s; %s := make([]%s, 0, len(%s)); for verifi_%s := range %s { %s = append(%s, verifi_%s) }; ", mv, xText, kv, keyType, mv, id, mv, kv, kv, id)
-		fmt.Fprintf(&b, "verifmap.Arrange(%q, &%s); for _, %s := range %s { ", site, kv, keyName, kv)
-		if valIsBlank {
+		fmt.Fprintf(&b, "verifmap.Arrange(%q, &%s); ", site, kv)
+		if valDecl != "" {
+			fmt.Fprintf(&b, "var %s %s; var %s bool; ", rs.Value.(*ast.Ident).Name, valDecl, ok1)
+		}
+		fmt.Fprintf(&b, "for _, %s := range %s { ", keyName, kv)
+		if valDecl != "" {
+			fmt.Fprintf(&b, "%s, %s = %s[%s]; if !%s { continue }; ", rs.Value.(*ast.Ident).Name, ok1, mv, keyName, ok1)
+		} else if valIsBlank {
 			fmt.Fprintf(&b, "if _, %s := %s[%s]; !%s { continue }; ", ok1, mv, keyName, ok1)
 		} else {
 			fmt.Fprintf(&b, "%s, %s := %s[%s]; if !%s { continue }; ", rs.Value.(*ast.Ident).Name, ok1, mv, keyName, ok1)
